@@ -13,20 +13,28 @@ import threading
 import numpy as np
 from harness import common as C
 
-RULE = ('transform cases: every shape in {1..9}^2 (all parity pairs, square and not) several times plus a few up to 24x17, '
-        'each with Q from {1,2,3,1.5,2.37,0.8,(1.7,2.3),(2,1)}, output sizes 1..10 per axis (every parity, smaller and larger '
-        'than the input), shift from {0,+-1,+-2.5,(1.5,-2.25),(0,1)}, direction fwd/inv, input dtype from {complex128, float64, '
-        'complex64, float32, int64, bool}, config.precision 64 (85%) / 32 (15%), 40% of the cases pass Q / samples_out / shift as '
-        'list, ndarray or scalar instead of tuples; methods mdft and czt both run on every case; '
-        'FFT-route cases: focus/unfocus for shapes x Q in {1,2,3,1.5,2.37,1.2}; basis cases: _prepare_czt_basis for all '
-        '(n,M) up to the tier bound; histories: random sequences (<= 40 ops) of dft2/idft2/czt2/iczt2 calls over a pool of '
-        'repeated keys, clear(), precision switches, each result compared with a fresh executor.  Non-trivial = not 1x1->1x1; '
-        'distinct = distinct (item, input) tuples')
+RULE = ('transform cases: every shape in {1..9}^2 (all parity pairs, square and not) several times plus a few up to 24x17; Q half '
+        'from {1,2,3,1.5,2.37,0.8,(1.7,2.3),(2,1)} and half RANDOM REALS in [0.3,5] (scalar or per-axis, all digits random); output '
+        'sizes 1..10 per axis (every parity, smaller and larger than the input); shift from {0,+-1,+-2.5,(1.5,-2.25),(0,1)} or random '
+        'reals in [-4,4]; direction fwd/inv; input dtype from {complex128, float64, complex64, float32, int64, bool}; config.precision '
+        '64 (85%) / 32 (15%); 40% of the cases pass Q / samples_out / shift as list, ndarray or scalar instead of tuples; methods mdft '
+        'and czt both run on every case, on a FRESH executor (pure-function test against the Lean double sum) and on the shared '
+        'executors (the stream is one long history: a difference is reduced to a short culprit history); FFT-route cases: focus/unfocus '
+        'for shapes x Q in {1,2,3,1.5,2.37,1.2}; basis cases: _prepare_czt_basis for all (n,M) up to the tier bound; dispatch cases: '
+        'focus_fixed_sampling / unfocus_fixed_sampling and the Wavefront methods, both engines, random real dx/efl/wvl/out_dx/shift, '
+        'non-square shapes, samples as tuple/list/int, against the textbook sum on the PHYSICAL grid (Q_a = wvl efl/(n_a dx out_dx), '
+        'shift/out_dx computed independently) and the returned Wavefront (dx, space, wavelength, shape); large cases: shapes 30..140 '
+        '(quick) / ..513 (thorough) with random real Q and shifts, NumPy double-sum oracle, size-scaled float32 tolerance; histories: '
+        'systematic pairs (precision, dtype, direction, one-axis variants, argument forms, forward/backprop) and random sequences '
+        '(<= 40 ops) of dft2/idft2/czt2/iczt2/dft2_backprop/idft2_backprop over pools of one-axis variants with random real Q, clear(), '
+        'precision switches, each result compared with a fresh executor and the input array checked unmodified.  Non-trivial = not '
+        '1x1->1x1; distinct = distinct (item, input) tuples')
 ASSUMPTIONS = ['scipy.fft.fft/ifft/fft2/ifft2 compute the (iterated 1-D) DFT sums with the stated normalisation; fftshift/ifftshift '
                'rotate by n//2; next_fast_len(k) >= k (modelled as parameters with that contract)',
                'np.exp / np.sqrt / matmul / broadcasting (trusted); comparison tolerance 1e-9*max(1,|x|max) in float64, '
-               '5e-5 in float32 on standard-normal inputs of size <= 24 (conditioning: unitary-like maps, no cancellation)',
-               'Float evaluation of the Lean model (cos/sin of 2*pi*t in IEEE double) stands for the exact model']
+               'max(5e-5, 5e-7 * longest axis) in float32 on standard-normal inputs (conditioning: unitary-like maps, no cancellation)',
+               'Float evaluation of the Lean model (cos/sin of 2*pi*t in IEEE double) stands for the exact model; the large-size tier '
+               'uses a NumPy double sum as oracle (the Lean oracle is an interpreted O(n^4) sum)']
 
 TOL64 = 1e-9
 TOL32 = 5e-5
@@ -1059,28 +1067,30 @@ def replay(inp):
 MANIFEST_ENTRY = {
     'technique': 'Lean 4 proofs over an abstract Fourier character (Bluestein identity, wrap-around lemma, FFT convolution '
                  'theorem from derived root-of-unity orthogonality, index reindexing mod N, cache invariant by induction over '
-                 'op lists) on translator-generated glue + differential correspondence of the executable model with prysm',
-    'text': ('PROVED for all inputs (every shape m x n, output size M x N, per-axis Q, real shift, input array, FFT lengths '
-             'K >= m+M-1, L >= n+N-1; kernel e any map with e(a+b)=e(a)e(b), e(0)=1, e(k)=1 for integer k, e(t)=1 only at '
-             'integers; instantiated with exp(-2 pi i t)): (1) the matrix triple product as _setup_bases builds it equals a '
-             'unit phase (explicit, depending on the output sample only, =1 at zero shift) times the textbook sum; (2) the '
-             'Bluestein chirp-Z pipeline exactly as czt2 computes it (pre-chirp, zero-padded fft2 as iterated 1-D DFT sums, '
-             'kernel vector h with its two filled segments and zero gap, ifft2, crop, post-chirp) equals the triple product '
-             'sample for sample, hence the textbook sum up to the same phase; iczt2 = conj.czt2.conj equals the inverse '
-             'transform; (3) fftshift(fft2(ifftshift(pad2d(x)), ortho)) equals the textbook sum on the grid Q_eff = N\'/n for '
-             'every padded size >= the input, any parities; (4) corollary: the three routes agree on the FFT grid; (5) for '
-             'every sequence of earlier calls and clear()s an executor call uses exactly the bases a fresh executor builds, '
-             'given that everything read while building is a key field. TRANSLATED from the current source and proved equal to '
-             'the model / to have the needed property: start, arange bounds and the three slice bounds of h in '
-             '_prepare_czt_basis; shift and chirp signs; which shape/samples/shift/Q component feeds the row and column bases '
-             'of both executors (resolved through the cache-key tuple); the chirp constants and exponent scalars as rational '
-             'functions; norms; FFT-length arguments; key fields and build-time reads of both executors; pad2d offset; the '
-             'shape of focus/unfocus. MODELLED AND COMPARED (600 / 12000 transform cases + FFT-route, basis-vector, dispatch '
-             'and history cases per run): the NumPy execution of all of the above against the Lean model evaluated in Float, '
-             'and the property predicates on the real outputs against the model\'s direct double sum.'),
+                 'op lists) about model routes whose signs / statement order / flags / wiring / constants are translator-generated '
+                 'parameters + differential correspondence of the executable model with prysm',
+    'text': ('PROVED for all inputs (every shape m x n, output size M x N, per-axis Q, real shift, input array, FFT lengths that '
+             'next_fast_len may return for the generated length arguments; kernel e any map with e(a+b)=e(a)e(b), e(0)=1, e(k)=1 for '
+             'integer k, e(t)=1 only at integers; instantiated with exp(-2 pi i t)): (1) dft2 / idft2 with the kernel sign, fwd flags, '
+             'wiring, exponent scalars and norms of the current source equal an explicit unit phase (output-sample dependent only, =1 at '
+             'zero shift) times the forward / inverse textbook sum; equal squared modulus for every shift; (2) czt2 as an interpreter '
+             'over the GENERATED list of its statements (pre-chirp, zero-padded fft2 as iterated 1-D DFT sums, kernel product, ifft2, '
+             'crop, post-chirp) with the generated chirp / shift signs, index glue, wiring and chirp constants equals dft2 sample for '
+             'sample; iczt2 = conj.czt2.conj equals idft2; (3) focus / unfocus with the generated shift order, norm, transform and pad '
+             'offset equal the forward / inverse textbook sum on the grid Q_eff = N\'/n for every padded size >= the input; the padded '
+             'length is ceil(nQ), >= n for Q >= 1 and = nQ when that is an integer (only then do the three routes share a grid; '
+             'corollary routes_agree); (4) with the Q and shift conversions translated from focus_fixed_sampling / '
+             'unfocus_fixed_sampling the kernel exponent of both engines is the physical x xi/(lambda f), per axis; (5) for every '
+             'sequence of earlier calls and clear()s an executor call uses exactly the bases a fresh executor builds, given that '
+             'everything read while building (key components, config.*, hidden self.*) is a key field - an abstract machine: key '
+             'normalisation in _key and the two-dictionary layout are outside it. Every translated obligation is consumed by a property '
+             'theorem. MODELLED AND COMPARED each run: NumPy execution of all routes (incl. dtype promotion, argument forms, dispatch '
+             'layer, Wavefront wrappers, backprop entry points, histories) against the Lean model evaluated in Float and the Lean '
+             'double-sum oracle; sizes beyond 26 only against a NumPy double sum.'),
     'note': ('Partial in these respects: scipy.fft is a parameter with the contract "computes the DFT sum" (not verified); '
-             'floating-point rounding is not covered (float64 compared at 1e-9, float32 at 5e-5); the cache theorem is over an '
-             'abstract state machine whose key/read sets are extracted from the AST (dict semantics of Python trusted); '
-             'cupy/torch backends not covered. Trusted: Lean kernel, Mathlib, the ast->Lean translator (validated by executing '
-             'the generated glue against _prepare_czt_basis on an exhaustive small domain each run).'),
+             'floating-point rounding is not covered (float64 compared at 1e-9, float32 at max(5e-5, 5e-7 n)); the cache theorem is over '
+             'an abstract single-dictionary machine whose key/read sets are extracted from the AST (dict semantics of Python trusted); '
+             'the driver runs the parameterised routes at the hand reference values, the generated values are tied to them by the '
+             'gen_* theorems; an unrecognised source shape degrades the item to the hand value (TIE-DEGRADED line, widened sweep); '
+             'cupy/torch backends not covered; focus(f, Q<1) raises (pad2d cannot shrink) - outside the FFT route as stated.'),
 }
